@@ -339,7 +339,22 @@ func msgIDs() (func(*dns.Msg) int, func(string) int) {
 	return reg, look
 }
 
-func runRound(id string, r *hx.RNG, sp roundSpec) hx.Case {
+// runRound repeats the round trip when a clock reading fell so close to an
+// expiry that the outcome depends on which side the code's own time.Now() was.
+func runRound(id string, mkRNG func() *hx.RNG, mkSpec func(r *hx.RNG) roundSpec) hx.Case {
+	var c hx.Case
+	for try := 0; try < 6; try++ {
+		r := mkRNG()
+		var ok bool
+		c, ok = runRoundOnce(id, r, mkSpec(r))
+		if ok {
+			break
+		}
+	}
+	return c
+}
+
+func runRoundOnce(id string, r *hx.RNG, sp roundSpec) (hx.Case, bool) {
 	base := time.Unix(time.Now().Unix(), 0)
 	off := func(ms int64) time.Time {
 		return base.Add(time.Duration(ms)*time.Millisecond + time.Duration(sp.sub))
@@ -461,6 +476,7 @@ func runRound(id string, r *hx.RNG, sp roundSpec) hx.Case {
 		c1.VerifWriteDump(&buf)
 		file = buf.Bytes()
 	}
+	nd1 := nowMs()
 	if sp.via != "file" {
 		c1.Close()
 	}
@@ -506,6 +522,16 @@ func runRound(id string, r *hx.RNG, sp roundSpec) hx.Case {
 	}
 	nl := nowMs()
 	lo := loadFile(file, sp.via, dir)
+	nl1 := nowMs()
+	unambiguous := true
+	for _, it := range items {
+		if it.ce >= nd-2 && it.ce <= nd1+2 {
+			unambiguous = false // expiry inside the dump's clock window
+		}
+		if fl := (it.ce*1000000 + sp.sub) / 1000000000 * 1000; it.ce >= 0 && fl >= nl-2 && fl <= nl1+2 {
+			unambiguous = false // expiry (to the second) inside the load's clock window
+		}
+	}
 	var loaded []string
 	if lo.c2 != nil {
 		its := lo.c2.VerifItems()
@@ -545,7 +571,7 @@ func runRound(id string, r *hx.RNG, sp roundSpec) hx.Case {
 		Desc: map[string]any{"kind": "round", "items": len(items), "blocks": len(blocks), "block_bytes": blens,
 			"loaded": len(loaded), "err": errc, "via": sp.via, "file_bytes": len(file)},
 		FKey: "round",
-	}
+	}, unambiguous
 }
 
 // ---------- CLoad ----------
@@ -1017,7 +1043,9 @@ func buildTasks(o *hx.Opts) []task {
 	for _, c := range cat {
 		c := c
 		id := "cat:round:" + c.name
-		add(task{id: id, kind: "round", run: one(func() hx.Case { return runRound(id, hx.NewRNG(o.Seed, id), c.sp) })})
+		add(task{id: id, kind: "round", run: one(func() hx.Case {
+			return runRound(id, func() *hx.RNG { return hx.NewRNG(o.Seed, id) }, func(*hx.RNG) roundSpec { return c.sp })
+		})})
 	}
 	nr := 16
 	if !quick {
@@ -1026,20 +1054,21 @@ func buildTasks(o *hx.Opts) []task {
 	for i := 0; i < nr; i++ {
 		id := fmt.Sprintf("round:%d", i)
 		add(task{id: id, kind: "round", run: one(func() hx.Case {
-			r := hx.NewRNG(o.Seed, id)
-			sp := roundSpec{n: r.Intn(300), sub: int64(hx.Pick(r, []int{0, 0, 1, 999999, r.Intn(1000000)})), pLazy: hx.Pick(r, []int{0, 10, 50})}
-			if r.Chance(1, 3) {
-				sp.n = r.Intn(12)
-			}
-			if r.Chance(1, 4) {
-				sp.pExpiring = r.Range(5, 60)
-			}
-			sp.via = hx.Pick(r, []string{"", "", "", "http", "file"})
-			if r.Chance(1, 8) {
-				sp.n = r.Range(3, 60)
-				sp.txtLen = func(int) int { return r.Range(0, 60000) }
-			}
-			return runRound(id, r, sp)
+			return runRound(id, func() *hx.RNG { return hx.NewRNG(o.Seed, id) }, func(r *hx.RNG) roundSpec {
+				sp := roundSpec{n: r.Intn(300), sub: int64(hx.Pick(r, []int{0, 0, 1, 999999, r.Intn(1000000)})), pLazy: hx.Pick(r, []int{0, 10, 50})}
+				if r.Chance(1, 3) {
+					sp.n = r.Intn(12)
+				}
+				if r.Chance(1, 4) {
+					sp.pExpiring = r.Range(5, 60)
+				}
+				sp.via = hx.Pick(r, []string{"", "", "", "http", "file"})
+				if r.Chance(1, 8) {
+					sp.n = r.Range(3, 60)
+					sp.txtLen = func(int) int { return r.Range(0, 60000) }
+				}
+				return sp
+			})
 		})})
 	}
 
